@@ -42,6 +42,11 @@ pub fn parse_v2_header(i: &[u8]) -> IResult<&[u8], HeaderV2> {
     let (i, _) = tag(&PROTOCOL_SIGNATURE_V2)(i)?;
     let (i, command) = parse_command(i)?;
     let (i, family) = be_u8(i)?;
+    // The low nibble is the transport protocol: UNSPEC, STREAM or DGRAM. Other
+    // values "must be rejected as invalid by receivers" (specification, 2.2).
+    if family & 0x0f > 0x02 {
+        return Err(Err::Error(Error::from_error_kind(i, ErrorKind::Switch)));
+    }
     let (i, len) = be_u16(i)?;
     let (i, data) = take(len)(i)?;
     // The length field gates exactly `len` address bytes; `take` already
